@@ -1,6 +1,103 @@
-(* placeholder while the correspondence is brought up; replaced by the real statements *)
-From Coq Require Import List.
-From MV Require Import Base.Bytes Model.Tnet.
-Theorem C36_placeholder : dumps TNull = (x30 :: x3a :: x7e :: nil).
-Proof. reflexivity. Qed.
-Print Assumptions C36_placeholder.
+(* Props/C36.v -- Flow files round-trip every flow type and reading never fails unexpectedly.
+   Statements only; each is closed by [exact] of a lemma proved in Proofs/Tnet*.v.
+   Model: Model/Tnet.v (tnetstring dumps/load/parse/pop, FlowReader.stream exception mapping).
+   float() and Flow.from_state(compat.migrate_flow(.)) are parameters: every theorem holds for
+   all of their behaviours. Flow get_state/from_state are not modelled (oracle only). *)
+From Coq Require Import List Bool Arith NArith ZArith.
+From MV Require Import Base.Bytes Model.Tnet Proofs.TnetBase Proofs.TnetRoundtrip Proofs.TnetReader Proofs.TnetTrunc Proofs.TnetExamples.
+Import ListNotations.
+
+(* Codec round trip, all value trees: what dumps writes, load reads back as the same tree with
+   the item order of every dict reversed (mirror), and leaves the rest of the file untouched.
+   wf = representable Python value (canonical float tokens, valid UTF-8 strs, hashable pairwise
+   different dict keys, at most 4300 digits per int and length prefix); top_ok = at most 12 length
+   digits (load rejects longer prefixes); height v <= depth = the interpreter stack suffices. *)
+Theorem C36_roundtrip : forall pyfloat (v : tv) (depth : nat) (rest : bytes),
+  wf pyfloat v -> top_ok v -> (height v <= depth)%nat ->
+  load pyfloat depth (dumps v ++ rest) = LValue (mirror v) rest.
+Proof. exact load_dumps. Qed.
+Print Assumptions C36_roundtrip.
+
+(* mirror v is the same Python value (dicts compare as unordered item collections), and a second
+   save/load restores the original item order *)
+Theorem C36_mirror_is_python_equal : forall v, tv_equiv v (mirror v) /\ mirror (mirror v) = v.
+Proof. exact (fun v => conj (mirror_equiv v) (mirror_involutive v)). Qed.
+Print Assumptions C36_mirror_is_python_equal.
+
+(* The length-prefixed framing is prefix-free, hence injective: no encoding is the beginning of
+   another one. *)
+Theorem C36_prefix_free : forall pyfloat v1 v2 rest,
+  wf pyfloat v1 -> wf pyfloat v2 -> dumps v2 = dumps v1 ++ rest -> v1 = v2 /\ rest = [].
+Proof. exact dumps_prefix_free. Qed.
+Print Assumptions C36_prefix_free.
+
+(* Whole files: the records written are read back in order and the reader ends cleanly, for any
+   handler pair naming ValueError and IndexError (in particular the current one). *)
+Theorem C36_file_roundtrip : forall pyfloat outer inner from_state depth,
+  outer ValueError = true -> outer IndexError = true -> forall vs : list tv,
+  Forall (loadable pyfloat from_state depth) vs ->
+  stream pyfloat outer inner from_state depth (file_of vs) = (map mirror vs, Clean).
+Proof. exact stream_whole. Qed.
+Print Assumptions C36_file_roundtrip.
+
+(* Reading arbitrary bytes. Full totality (only Clean / ReadError) is FALSE of the code as it is:
+   refuted by nesting one level beyond the stack budget, and by a well-formed dict on which
+   from_state raises KeyError. *)
+Theorem C36_reader_total_refuted :
+  (exists pyfloat from_state depth file,
+     snd (stream pyfloat outer_current inner_current from_state depth file) = Other RecursionError)
+  /\ (exists pyfloat from_state depth file,
+     snd (stream pyfloat outer_current inner_current from_state depth file) = Other KeyError).
+Proof.
+  exact (conj (ex_intro _ _ (ex_intro _ _ (ex_intro _ _ (ex_intro _ _ (proj1 recursion_error_escapes)))))
+              (ex_intro _ _ (ex_intro _ _ (ex_intro _ _ (ex_intro _ _ key_error_escapes))))).
+Qed.
+Print Assumptions C36_reader_total_refuted.
+
+(* ... and these are the ONLY ways (exact complement of the finding): for all bytes, all float()
+   and from_state behaviours and every stack budget, the reader ends cleanly, with a read error,
+   in the HAR branch, or with RecursionError, or with an exception class that from_state raised
+   and that is not ValueError/TypeError/IndexError. It never runs out of model fuel. *)
+Theorem C36_reader_total_partial : forall pyfloat from_state depth file,
+  let fin := snd (stream pyfloat outer_current inner_current from_state depth file) in
+  fin = Clean \/ fin = ReadError \/ fin = HarBranch
+  \/ fin = Other RecursionError
+  \/ (exists v e, from_state v = Some e /\ outer_current e = false /\ fin = Other e).
+Proof. exact stream_current_outcomes. Qed.
+Print Assumptions C36_reader_total_partial.
+
+(* Sufficient guard: from_state raises only the named classes and the file is too short to
+   exhaust the stack (every nesting level costs at least two bytes). *)
+Theorem C36_reader_total_guarded : forall pyfloat from_state depth file,
+  (forall v e, from_state v = Some e -> outer_current e = true) ->
+  (length file <= 2 * depth)%nat ->
+  let fin := snd (stream pyfloat outer_current inner_current from_state depth file) in
+  fin = Clean \/ fin = ReadError \/ fin = HarBranch.
+Proof. exact stream_current_total_guarded. Qed.
+Print Assumptions C36_reader_total_guarded.
+
+(* The repair (fixes/C36-reader-exception-mapping.diff): handlers that also name RecursionError
+   and convert everything from_state raises make the reader total on all inputs. *)
+Theorem C36_reader_total_if_handled : forall pyfloat outer inner from_state depth file,
+  outer ValueError = true -> outer TypeError = true -> outer IndexError = true ->
+  outer RecursionError = true -> (forall e, inner e = true) ->
+  let fin := snd (stream pyfloat outer inner from_state depth file) in
+  fin = Clean \/ fin = ReadError \/ fin = HarBranch.
+Proof. exact stream_total_if_handled. Qed.
+Print Assumptions C36_reader_total_if_handled.
+
+(* tnetstring level: pop raises only ValueError / TypeError / RecursionError and load additionally
+   IndexError, for all inputs. *)
+Theorem C36_load_exceptions : forall pyfloat depth file e,
+  load pyfloat depth file = LExc e ->
+  e = ValueError \/ e = TypeError \/ e = IndexError \/ e = RecursionError.
+Proof. exact (fun pf d f e H => proj1 (proj2 (load_facts pf d f)) e H). Qed.
+Print Assumptions C36_load_exceptions.
+
+Theorem C36_nonvacuous :
+  wf pf_sample sample /\ top_ok sample /\ (height sample <= 2)%nat
+  /\ load pf_sample 2 (dumps sample) = LValue (mirror sample) []
+  /\ mirror sample <> sample
+  /\ load pf_sample 2 (dumps (mirror sample)) = LValue sample [].
+Proof. exact sample_roundtrips. Qed.
+Print Assumptions C36_nonvacuous.
